@@ -176,7 +176,7 @@ def skel_table(skel, name, concrete):
 
 
 def k1_struct(ctx):
-    exp = ctx.stage('expander', stages.expander_build)
+    exp = ctx.stage('expander', lambda: stages.expander_build(ctx.dir))
     if not exp['ok']:
         return {'ok': False, 'why': 'expander does not build against /repo', 'log': exp['log']}
     cases = [d for (lab, d) in ties.k1_verdict_corpus(ctx) if lab == 'wf']
